@@ -602,15 +602,19 @@
 		local.set $block_size
 
 		;; 如果已经超出内存最大空间, 则先扩容
-		;; if heap_ptr+block_size >= heap_top { grow }
+		;; if heap_ptr+block_size > heap_top { grow }
 		global.get $__heap_ptr
 		local.get $block_size
 		i32.add
 		global.get $__heap_top
-		i32.ge_s
+		i32.gt_s
 		if
-			;; $pages = ($block_size+WASM_PAGE_SIZE-1) / WASM_PAGE_SIZE)
+			;; $pages = (heap_ptr+block_size-heap_top+WASM_PAGE_SIZE-1) / WASM_PAGE_SIZE)
+			global.get $__heap_ptr
 			local.get $block_size
+			i32.add
+			global.get $__heap_top
+			i32.sub
 			i32.const 65535 ;; WASM_PAGE_SIZE-1
 			i32.add
 			i32.const 65536 ;; WASM_PAGE_SIZE
